@@ -32,6 +32,14 @@
     * pooling layers without average quantizer     (C14_pool_never_raises, C14_pool_none_fixed_witness)
     * auto_po2 with a negative `integer`           (C14_autopo2_err_iff,
                                                     C14_autopo2_negative_integer_fixed_witness)
+  Strengthening round (notes/C14.md):
+    * QBidirectional with an explicit `backward_layer=`: nothing about the two directions is assumed
+      equal — each direction's OWN quantizers, cut to its OWN number of weights
+                          (C14_weights_quantized_once_bidir without symmetry hypotheses,
+                           C14_bidir_as_two_rnn, C14_bidir_backward_own,
+                           C14_bidirectional_own_quantizers_witness)
+    * NOT satisfied, recorded: a user SUBCLASS of QBatchNormalization without scale / center is still
+      zipped positionally (the pairing is selected by class name)   (C14_bn_subclass_zip_counterexample)
 -/
 import QKV.Lemmas.Export
 import QKV.Lemmas.FixedQ
@@ -82,20 +90,65 @@ theorem C14_weights_quantized_once_bn (env : Env) (M : Model) (W : ℕ → List 
   cases sc <;> cases ce <;> simp [zipApply]
 
 /-- QBidirectional (fix round; the positional zip used to give the backward kernel the forward
-    STATE quantizer): with get_quantizers() = forward ++ backward (equally many each) and
-    get_weights() = forward ++ backward weights (`dirW` each, at most the number of quantizers per
-    direction), each direction's weights are quantized once by that direction's quantizers, in order -/
+    STATE quantizer): with get_quantizers() = forward_layer's ++ backward_layer's (`dirQ` forward ones)
+    and get_weights() = forward ++ backward weights (`dirW` resp. `dirWb` of them), each direction's
+    weights are quantized once by THAT direction's quantizers, in order.
+    Strengthening round: nothing is assumed symmetric — the two directions may list different
+    quantizers (kinds, widths, None), different numbers of quantizers and of weights (an explicit
+    `backward_layer=` of another cell class, or without bias). -/
 theorem C14_weights_quantized_once_bidir (env : Env) (M : Model) (W : ℕ → List Tensor) (i : ℕ)
     (l : Layer) (hl : M[i]? = some l) (hk : l.kind = .bidir)
-    (fq bq : List (Option Quant)) (hqs : l.qs = fq ++ bq) (hlen : fq.length = bq.length)
-    (fw bw : List Tensor) (hW : W i = fw ++ bw) (hfw : fw.length = l.dirW) (hbw : bw.length = l.dirW)
+    (fq bq : List (Option Quant)) (hqs : l.qs = fq ++ bq) (hq : fq.length = l.dirQ)
+    (fw bw : List Tensor) (hW : W i = fw ++ bw) (hfw : fw.length = l.dirW) (hbw : bw.length = l.dirWb)
     (hd : l.dirW ≤ fq.length) :
     (exportQ env M W).w i = zipApply fq fw ++ zipApply bq bw := by
   rw [exportQ_w, S_eq_of_get hl]
-  have hh : (fq ++ bq).length / 2 = fq.length := by simp [hlen]; omega
-  simp only [stepWeights, layerQs, hk, bidirQs, hqs, hh, hW, List.take_left', List.drop_left']
+  simp only [stepWeights, layerQs, hk, bidirQs, hqs, ← hq, hW, List.take_left', List.drop_left']
   rw [zipApply_append _ _ _ _ (by simp [hfw, hd]), zipApply_take _ _ _ (le_of_eq hfw),
     zipApply_take _ _ _ (le_of_eq hbw)]
+
+/-- the state quantizer at the end of a recurrent layer's list is never reached by its weights -/
+theorem zipApply_dropLast (qs : List (Option Quant)) (ws : List Tensor) (h : ws.length < qs.length) :
+    zipApply qs.dropLast ws = zipApply qs ws := by
+  rw [List.dropLast_eq_take]
+  exact zipApply_take _ _ _ (by omega)
+
+/-- Strengthening round (seed C14-5): a QBidirectional is exported as its two directions exported
+    STAND-ALONE — the stored weights are the concatenation of what the export stores for a recurrent
+    layer with the forward layer's quantizers and weights and for a recurrent layer with the BACKWARD
+    layer's quantizers and weights (any models `Mf`, `Mb` holding such layers).  In particular the
+    backward half does not depend on the forward layer's quantizers at all. -/
+theorem C14_bidir_as_two_rnn (env : Env) (M : Model) (W : ℕ → List Tensor) (i : ℕ)
+    (l : Layer) (hl : M[i]? = some l) (hk : l.kind = .bidir)
+    (fq bq : List (Option Quant)) (hqs : l.qs = fq ++ bq) (hq : fq.length = l.dirQ)
+    (fw bw : List Tensor) (hW : W i = fw ++ bw) (hfw : fw.length = l.dirW) (hbw : bw.length = l.dirWb)
+    (hdf : l.dirW < fq.length) (hdb : l.dirWb < bq.length)
+    (Mf Mb : Model) (Wf Wb : ℕ → List Tensor) (jf jb : ℕ) (lf lb : Layer)
+    (hlf : Mf[jf]? = some lf) (hkf : lf.kind = .rnn) (hqf : lf.qs = fq) (hWf : Wf jf = fw)
+    (hlb : Mb[jb]? = some lb) (hkb : lb.kind = .rnn) (hqb : lb.qs = bq) (hWb : Wb jb = bw) :
+    (exportQ env M W).w i = (exportQ env Mf Wf).w jf ++ (exportQ env Mb Wb).w jb := by
+  rw [C14_weights_quantized_once_bidir env M W i l hl hk fq bq hqs hq fw bw hW hfw hbw (le_of_lt hdf),
+    C14_weights_quantized_once_rnn env Mf Wf jf lf hlf hkf,
+    C14_weights_quantized_once_rnn env Mb Wb jb lb hlb hkb, hqf, hqb, hWf, hWb,
+    zipApply_dropLast _ _ (by omega), zipApply_dropLast _ _ (by omega)]
+
+/-- ... hence two bidirectional layers with the same backward layer (quantizers, weights) store the
+    same backward weights whatever their forward layers are (quantizers AND weights) -/
+theorem C14_bidir_backward_own (env : Env) (M M' : Model) (W W' : ℕ → List Tensor) (i i' : ℕ)
+    (l l' : Layer) (hl : M[i]? = some l) (hl' : M'[i']? = some l')
+    (hk : l.kind = .bidir) (hk' : l'.kind = .bidir)
+    (fq fq' bq : List (Option Quant)) (hqs : l.qs = fq ++ bq) (hqs' : l'.qs = fq' ++ bq)
+    (hq : fq.length = l.dirQ) (hq' : fq'.length = l'.dirQ)
+    (fw fw' bw : List Tensor) (hW : W i = fw ++ bw) (hW' : W' i' = fw' ++ bw)
+    (hfw : fw.length = l.dirW) (hfw' : fw'.length = l'.dirW)
+    (hbw : bw.length = l.dirWb) (hbw' : bw.length = l'.dirWb)
+    (hd : l.dirW ≤ fq.length) (hd' : l'.dirW ≤ fq'.length) :
+    ((exportQ env M W).w i).drop fw.length = ((exportQ env M' W').w i').drop fw'.length := by
+  rw [C14_weights_quantized_once_bidir env M W i l hl hk fq bq hqs hq fw bw hW hfw hbw hd,
+    C14_weights_quantized_once_bidir env M' W' i' l' hl' hk' fq' bq hqs' hq' fw' bw hW' hfw' hbw' hd']
+  have h1 : (zipApply fq fw).length = fw.length := by rw [zipApply_length_le]; omega
+  have h2 : (zipApply fq' fw').length = fw'.length := by rw [zipApply_length_le]; omega
+  rw [← h1, ← h2, List.drop_left, List.drop_left]
 
 /-- folded layers are not written back; layers without quantizers and everything outside the
     model are untouched -/
@@ -654,14 +707,60 @@ theorem C14_bidirectional_zip_fixed_witness :
     let qs := [tag 1, tag 2, tag 3, tag 4, tag 5, tag 6, tag 7, tag 8]
     let L : Layer := { cls := "QBidirectional", kind := .bidir, qs := qs,
                        fwd := [tag 1, tag 2, tag 3, tag 5, tag 6, tag 7], fold := id, useBias := true,
-                       bn := none, pool := none, succ := [1], allow := true, dirW := 3 }
-    let L2 : Layer := { L with dirW := 2, fwd := [tag 1, tag 2, tag 5, tag 6] }   -- use_bias=False
+                       bn := none, pool := none, succ := [1], allow := true,
+                       dirW := 3, dirWb := 3, dirQ := 4 }
+    let L2 : Layer := { L with dirW := 2, dirWb := 2, fwd := [tag 1, tag 2, tag 5, tag 6] }   -- use_bias=False
     let env : Env := { rnd := id, rsq := id }
     (exportQ env [L] (fun _ => [[0], [0], [0], [0], [0], [0]])).w 0 = [[1], [2], [3], [5], [6], [7]] ∧
       (exportQ env [L2] (fun _ => [[0], [0], [0], [0]])).w 0 = [[1], [2], [5], [6]] ∧
       eff [L] (exportQ env [L] (fun _ => [[0], [0], [0], [0], [0], [0]])).w 0 =
         eff [L] (fun _ => [[0], [0], [0], [0], [0], [0]]) 0 := by
   decide +kernel
+
+/-- WITNESS (strengthening round, seed C14-5): `QBidirectional(layer, backward_layer=other)` with
+    directions that differ in everything — forward with bias (3 weights), backward without (2), and
+    the other way round.  Tagged quantizers as above.  Each backward weight carries the BACKWARD
+    layer's tag (5, 6, 7); a loop that repeats the forward layer's weight quantizers for the second
+    half ("the backward layer is a clone") would store [1,2,3,1,2] resp. only four of the five
+    weights ([1,2,1,2]: `set_weights` raises). -/
+theorem C14_bidirectional_own_quantizers_witness :
+    let tag : ℚ → Option Quant := fun c =>
+      some { kind := .other, q := fun w => w.map fun _ => c, scaleOf := fun _ => [] }
+    let qs := [tag 1, tag 2, tag 3, tag 4, tag 5, tag 6, tag 7, tag 8]
+    let L32 : Layer := { cls := "QBidirectional", kind := .bidir, qs := qs,
+                         fwd := [tag 1, tag 2, tag 3, tag 5, tag 6], fold := id, useBias := true,
+                         bn := none, pool := none, succ := [1], allow := true,
+                         dirW := 3, dirWb := 2, dirQ := 4 }
+    let L23 : Layer := { L32 with dirW := 2, dirWb := 3, fwd := [tag 1, tag 2, tag 5, tag 6, tag 7] }
+    let env : Env := { rnd := id, rsq := id }
+    let W : ℕ → List Tensor := fun _ => [[0], [0], [0], [0], [0]]
+    (exportQ env [L32] W).w 0 = [[1], [2], [3], [5], [6]] ∧
+      (exportQ env [L23] W).w 0 = [[1], [2], [5], [6], [7]] ∧
+      eff [L32] (exportQ env [L32] W).w 0 = eff [L32] W 0 ∧
+      eff [L23] (exportQ env [L23] W).w 0 = eff [L23] W 0 := by
+  decide +kernel
+
+/-- COUNTEREXAMPLE (finding C14-bn-subclass-zip, strengthening round): the QBatchNormalization
+    pairing is selected by `layer.__class__.__name__ == "QBatchNormalization"`, so a user SUBCLASS
+    of it (class name "MyBN") falls through to the positional zip of the 5-entry get_quantizers()
+    with its 3 weights when `scale=False`: beta is quantized by gamma's quantizer (here: everything
+    ↦ 1), although the layer's own call() uses beta's quantizer (identity) — the stored beta moves
+    from -3/4 to 1 and the effective weights change.  The same layer under its library class name is
+    exported correctly (`C14_shifted_zip_fixed_witness`). -/
+theorem C14_bn_subclass_zip_counterexample :
+    let G : Quant := { kind := .other, q := fun w => w.map fun _ => 1, scaleOf := fun _ => [] }   -- "gamma" quantizer
+    let Bq : Quant := { kind := .other, q := id, scaleOf := fun _ => [] }                          -- "beta" quantizer
+    let L : Layer := { cls := "MyBN", kind := .plain, qs := [some G, some Bq, none, none, none],
+                       fwd := [some Bq, none, none], fold := id, useBias := false,
+                       bn := some { scale := false, center := true, eps := 0 }, pool := none,
+                       succ := [1], allow := false }
+    let env : Env := { rnd := id, rsq := id }
+    let W : ℕ → List Tensor := fun _ => [[-3/4], [0], [1]]
+    QIdem G ∧ QIdem Bq ∧
+      (exportQ env [L] W).w 0 = [[1], [0], [1]] ∧
+      eff [L] W 0 = [[-3/4], [0], [1]] ∧ eff [L] (exportQ env [L] W).w 0 = [[1], [0], [1]] ∧
+      (exportQ env [{ L with cls := "QBatchNormalization" }] W).w 0 = [[-3/4], [0], [1]] := by
+  refine ⟨⟨fun t => by simp, fun _ => rfl⟩, ⟨fun _ => rfl, fun _ => rfl⟩, ?_, ?_, ?_, ?_⟩ <;> decide +kernel
 
 /-- get_model_sparsity counts zeros of exactly the exported (once-quantized) weights -/
 theorem C14_sparsity_counts_exported (env : Env) (M : Model) (W : ℕ → List Tensor) :
@@ -731,5 +830,27 @@ example : FwdAligned [exConv, exBnNoScale] := by
 example : bnCount { scale := false, center := true, eps := 1/1000 } ≤ [[(1:ℚ)], [0], [1]].length := by
   decide
 example : IsPo2Val (-1/4) := ⟨-2, Or.inr (by decide +kernel)⟩
+
+/-- strengthening round: the hypotheses of `C14_bidir_as_two_rnn` are satisfiable by directions that
+    differ in everything — forward [k, r, b, state] with bias (3 weights), backward [k', r', b', state']
+    without (2 weights) -/
+def exTag (c : ℚ) : Option Quant :=
+  some { kind := .other, q := fun w => w.map fun _ => c, scaleOf := fun _ => [] }
+def exBidir : Layer :=
+  { cls := "QBidirectional", kind := .bidir,
+    qs := [exTag 1, exTag 2, exTag 3, exTag 4, exTag 5, exTag 6, exTag 7, exTag 8],
+    fwd := [exTag 1, exTag 2, exTag 3, exTag 5, exTag 6], fold := id, useBias := true,
+    bn := none, pool := none, succ := [1], allow := true, dirW := 3, dirWb := 2, dirQ := 4 }
+def exRnn (qs : List (Option Quant)) : Layer :=
+  { cls := "QLSTM", kind := .rnn, qs := qs, fwd := qs.dropLast, fold := id, useBias := true,
+    bn := none, pool := none, succ := [1], allow := true }
+example (env : Env) (a b c d e : Tensor) :
+    (exportQ env [exBidir] (fun _ => [a, b, c, d, e])).w 0 =
+      (exportQ env [exRnn [exTag 1, exTag 2, exTag 3, exTag 4]] (fun _ => [a, b, c])).w 0 ++
+        (exportQ env [exRnn [exTag 5, exTag 6, exTag 7, exTag 8]] (fun _ => [d, e])).w 0 :=
+  C14_bidir_as_two_rnn env [exBidir] _ 0 exBidir rfl rfl
+    [exTag 1, exTag 2, exTag 3, exTag 4] [exTag 5, exTag 6, exTag 7, exTag 8] rfl rfl
+    [a, b, c] [d, e] rfl rfl rfl (by decide) (by decide)
+    _ _ _ _ 0 0 _ _ rfl rfl rfl rfl rfl rfl rfl rfl
 
 end QKV.Props.C14
